@@ -27,6 +27,11 @@ Ltac leaf_decide :=
   repeat match goal with
   | |- context [if ?c then _ else _] => destruct c eqn:?
   end;
+  (* the result tuple may sit inside the branches of a conditional (cursor advanced by compare-and-reset)
+     or at top level (cursor advanced by %): split it only now *)
+  repeat match goal with
+  | |- (_, _) = (_, _) => f_equal
+  end;
   repeat (rewrite Z.mod_small by lia);
   repeat (rewrite Z.rem_mod_nonneg by lia);
   repeat (rewrite Z.mod_small by lia);
@@ -57,11 +62,17 @@ Lemma gen_update_eq s now : wf s -> Z.of_nat (length (arr s)) < 2 ^ 32 ->
   = (arr (update s now), Z.of_nat (cursor (update s now))).
 Proof.
   intros Hw Hn. unfold gen_muggle_flow_ctl_update, update. cbv zeta. simpl arr. simpl cursor.
-  rewrite ?lset_natZ. f_equal.
+  rewrite ?lset_natZ.
   rewrite Nat2Z.inj_mod. unfold wf in Hw.
   assert (Hc : 0 <= Z.of_nat (cursor s) < Z.of_nat (length (arr s))) by lia.
   replace (Z.of_nat (S (cursor s))) with (Z.of_nat (cursor s) + 1) by lia.
+  (* the stored array is the model's, wherever it occurs in the generated term; from here on only the cursor
+     arithmetic is left *)
+  generalize (upd_nth (cursor s) now (arr s)); intros A.
   revert Hc Hn. generalize (Z.of_nat (cursor s)) (Z.of_nat (length (arr s))). intros c n Hc Hn.
+  (* the model's next cursor in linear form, so that a compare-and-reset in the C text is decided by lia alone *)
+  assert (Hx1 : c + 1 = n -> (c + 1) mod n = 0) by (intros ->; apply Z_mod_same_full).
+  assert (Hx2 : c + 1 < n -> (c + 1) mod n = c + 1) by (intros; apply Z.mod_small; lia).
   leaf_decide.
 Qed.
 
@@ -70,10 +81,16 @@ Lemma gen_fast_update_eq s now : wf s -> Z.of_nat (length (arr s)) < 2 ^ 32 ->
   = (arr (update s now), Z.of_nat (cursor (update s now))).
 Proof.
   intros Hw Hn. unfold gen_muggle_fast_flow_ctl_update, update. cbv zeta. simpl arr. simpl cursor.
-  rewrite ?lset_natZ. f_equal.
+  rewrite ?lset_natZ.
   rewrite Nat2Z.inj_mod. unfold wf in Hw.
   assert (Hc : 0 <= Z.of_nat (cursor s) < Z.of_nat (length (arr s))) by lia.
   replace (Z.of_nat (S (cursor s))) with (Z.of_nat (cursor s) + 1) by lia.
+  (* the stored array is the model's, wherever it occurs in the generated term; from here on only the cursor
+     arithmetic is left *)
+  generalize (upd_nth (cursor s) now (arr s)); intros A.
   revert Hc Hn. generalize (Z.of_nat (cursor s)) (Z.of_nat (length (arr s))). intros c n Hc Hn.
+  (* the model's next cursor in linear form, so that a compare-and-reset in the C text is decided by lia alone *)
+  assert (Hx1 : c + 1 = n -> (c + 1) mod n = 0) by (intros ->; apply Z_mod_same_full).
+  assert (Hx2 : c + 1 < n -> (c + 1) mod n = c + 1) by (intros; apply Z.mod_small; lia).
   leaf_decide.
 Qed.
